@@ -6,7 +6,8 @@
 From Grex Require Import Base.Str Model.Config Model.Cluster Model.Dfa Model.Expr Model.Pipeline.
 From Grex Require Import Proofs.Lang Proofs.TrieLang Proofs.QuotientLang Proofs.MinimizeLang
   Proofs.HopcroftCoarsest Proofs.PropsGlue.
-From Grex Require Proofs.ElimLang Proofs.HopcroftInv Proofs.MergeSound Proofs.HopcroftSym Proofs.HopcroftAny.
+From Grex Require Proofs.ElimLang Proofs.HopcroftInv Proofs.MergeSound Proofs.HopcroftSym Proofs.HopcroftAny
+  Proofs.MergeLang.
 From Grex Require Import Model.Print Engine.Syntax Engine.Parse Engine.Sem Engine.ExecCi.
 From Grex Require Import Proofs.FoldTables Proofs.EngineDen Proofs.PrintParseNum Proofs.PrintParseDefs
   Proofs.PrintParseXTok Proofs.PrintParse Proofs.PrintParseX Proofs.ExecCiSound Proofs.ScalarHay
@@ -141,6 +142,79 @@ Theorem C16_min_sound_with_merge : forall (lit cls : cp -> cp -> Prop) (cs : lis
     /\ (eps_safe t p -> lsub (L_dfa lit cls t) (L_dfa lit cls d')).
 Proof. exact HopcroftAny.minimize_trie_sound. Qed.
 
+(* minimisation preserves the language of EVERY trie of uniform clusters, merged (widened)
+   edges or not: exactly on non-empty strings, nothing is added, and the empty string is kept
+   when the root is not final or shares its block (K4 otherwise).  The twin of C16_min_lang
+   without no_merge: an edge of the quotient is an edge of a representative; a word read with
+   count k inside its range is the alphabet symbol (characters, k), and the partition is
+   stable for every alphabet symbol (C16_hopcroft_stable), so every member of the block reads
+   it too *)
+Theorem C16_min_lang_with_merge : forall (lit cls : cp -> cp -> Prop) (cs : list cluster) t,
+  Forall wf_cluster cs -> Forall (Forall uniform_g) cs -> trie_of cs = Some t ->
+  exists d' p,
+    partition_of t = Some p /\ recreate_graph t p = Some d' /\ minimize t = Some d'
+    /\ wf_dfa d' /\ ElimLang.acyclic d'
+    /\ (forall u, u <> [] -> (L_dfa lit cls d' u <-> L_dfa lit cls t u))
+    /\ lsub (L_dfa lit cls d') (L_dfa lit cls t)
+    /\ (eps_safe t p -> leq (L_dfa lit cls d') (L_dfa lit cls t))
+    /\ (~ In (d_init t) (d_finals t) -> leq (L_dfa lit cls d') (L_dfa lit cls t))
+    /\ (forall s, s < d_n t -> s <> d_init t ->
+          block_index s p 0 = block_index (d_init t) p 0 -> leq (L_dfa lit cls d') (L_dfa lit cls t)).
+Proof. exact MergeLang.minimize_trie_lang_eq. Qed.
+
+(* K1 LOCATED AT THE TRIE STAGE.  Whatever the self-check outcome, the final expression
+   denotes a sub-language of the language of the pipeline's trie; on the two outcomes that go
+   through Expression::from (everything but the plain alternation returned for SCFail with
+   both anchors disabled) it denotes exactly the trie language (K4 proviso for the empty
+   string), and for SCPass2 with both anchors disabled without proviso.  No no_merge: any
+   over-matching of the final pattern is already present in the (widened) trie *)
+Theorem C16_final_within_trie : forall (lit cls : cp -> cp -> Prop) c db sc ws e t,
+  ws <> [] ->
+  oracle_ok db (normalise c db ws) ->
+  trie_of (grapheme_clusters c db (normalise c db ws)) = Some t ->
+  Pipeline.final_expr c (grapheme_clusters c db (normalise c db ws)) sc = Some e ->
+  (forall u, L_expr lit cls e u -> L_dfa lit cls t u)
+  /\ (~ (f_no_start c && f_no_end c = true /\ sc = SCFail) ->
+      forall u, (u <> [] \/ K4 (normalise c db ws) = false) ->
+        (L_expr lit cls e u <-> L_dfa lit cls t u))
+  /\ (f_no_start c && f_no_end c = true -> sc = SCPass2 ->
+      forall u, L_expr lit cls e u <-> L_dfa lit cls t u).
+Proof. exact MergeLang.final_expr_lang_trie. Qed.
+
+(* ... between the specification and the trie language *)
+Theorem C16_final_sandwich : forall (lit cls : cp -> cp -> Prop) c db sc ws e t,
+  ws <> [] ->
+  oracle_ok db (normalise c db ws) ->
+  trie_of (grapheme_clusters c db (normalise c db ws)) = Some t ->
+  Pipeline.final_expr c (grapheme_clusters c db (normalise c db ws)) sc = Some e ->
+  (forall u, Spec lit cls c db ws u -> (u <> [] \/ K4 (normalise c db ws) = false) ->
+     L_expr lit cls e u)
+  /\ (forall u, L_expr lit cls e u -> L_dfa lit cls t u).
+Proof. exact MergeLang.final_expr_sandwich. Qed.
+
+(* non-vacuity, on an input whose trie is merged: "abc" "abbd" with repetition conversion
+   (clusters a b c / a b{2} d; the edge b is widened to b{1,2} and shared by both branches).
+   The final expression ab{1,2}[cd] accepts "abd", which is not specified, and the trie
+   accepts it already *)
+Example C16_K1_located :
+  no_merge (grapheme_clusters MergeLang.Sanity.c_rep []
+              (normalise MergeLang.Sanity.c_rep [] MergeLang.Sanity.ws1)) = false
+  /\ trie_of (grapheme_clusters MergeLang.Sanity.c_rep []
+                (normalise MergeLang.Sanity.c_rep [] MergeLang.Sanity.ws1))
+     = Some MergeLang.Sanity.t1
+  /\ (forall sc, Pipeline.final_expr MergeLang.Sanity.c_rep
+                   (grapheme_clusters MergeLang.Sanity.c_rep []
+                      (normalise MergeLang.Sanity.c_rep [] MergeLang.Sanity.ws1)) sc
+                 = Some MergeLang.Sanity.e1)
+  /\ L_expr eq eq MergeLang.Sanity.e1 [97; 98; 100]%N
+  /\ ~ Spec eq eq MergeLang.Sanity.c_rep [] MergeLang.Sanity.ws1 [97; 98; 100]%N
+  /\ L_dfa eq eq MergeLang.Sanity.t1 [97; 98; 100]%N.
+Proof.
+  exact (conj MergeLang.Sanity.k1_merge (conj MergeLang.Sanity.k1_trie
+          (conj MergeLang.Sanity.k1_expr (conj MergeLang.Sanity.k1_over
+            (conj MergeLang.Sanity.k1_not_spec MergeLang.Sanity.k1_in_trie))))).
+Qed.
+
 (* the verified minimality checker: no two states with the same right language *)
 Theorem C16_min_checkb : forall d, wf_dfa d -> min_checkb d = true ->
   forall i j, i < d_n d -> j < d_n d ->
@@ -256,6 +330,10 @@ Print Assumptions C16_acyclicb_sound.
 Print Assumptions C16_hopcroft_stable_symdet.
 Print Assumptions C16_hopcroft_stable.
 Print Assumptions C16_min_sound_with_merge.
+Print Assumptions C16_min_lang_with_merge.
+Print Assumptions C16_final_within_trie.
+Print Assumptions C16_final_sandwich.
+Print Assumptions C16_K1_located.
 Print Assumptions C16_min_checkb.
 Print Assumptions C16_print.
 Print Assumptions C16_print_verbose.
